@@ -3,6 +3,11 @@
 import json, os, sys
 HERE = os.path.dirname(os.path.abspath(__file__))
 CLAIMED = {
+ "C18": ("model_checking",
+         "exhaustive enumeration of survey tables x query depths x environment answers, and explicit-state enumeration of all data-addition histories (depth<=2/3) on the real Drillhole, against a reference desurvey written from the statement",
+         "PATH: every survey table of 1-3 (thorough 4) rows over the depth/azimuth/dip lattice, each driven through create / collar= / surveys= / re-open with all query depths (stations, mid and quarter points, float neighbours, beyond the end); DATA: every history of depth / interval data additions (unsorted, overlapping, collocated within tolerance, text and float) up to the stated length with re-open as an operation; clauses are the sentences of the statement (collar at depth zero, continuity, mean direction per leg, last direction beyond the end, vertex at its depth, cell joins from/to, value stays attached).",
+         "Lattice values exact in float32; 1e-9 relative tolerance on computed positions; the section above a first station deeper than 0 is judged against the first station's direction (stated assumption).",
+         "DESIGN.md §4 C18"),
  "C15": ("model_checking",
          "exhaustive truth-table enumeration over form switch combinations x value lattice x entry points, plus explicit-state enumeration of all call histories (depth<=2/3) on one validator / parameter / form / pool object",
          "Part A: every combination of the group / dependency / optional / enabled switches (468 configurations) for 14 form kinds against a reference predicate written from the ui.json documentation, through six entry points; Part N: the new-style Parameter / FormParameter / UIJson classes; Part B: all call sequences up to the stated length on the same object - the last verdict must equal the verdict of a fresh object and a refused call must leave data and form unchanged.",
